@@ -209,3 +209,19 @@ func FDSummary() []string {
 	sort.Strings(out)
 	return out
 }
+
+// DumpGoroutines writes all goroutine stacks to <run dir>/goroutines-<tag>.txt (diagnostics for a failing case).
+func DumpGoroutines(tag string) string {
+	dir := os.Getenv("VERIF_RUNDIR")
+	if dir == "" {
+		dir = "."
+	}
+	path := dir + "/goroutines-" + tag + ".txt"
+	f, err := os.Create(path)
+	if err != nil {
+		return ""
+	}
+	defer f.Close()
+	_ = pprof.Lookup("goroutine").WriteTo(f, 2)
+	return path
+}
